@@ -3,8 +3,22 @@
   The selectors `Gen.identify_multimetric_phase`, `Gen.identify_search_phase`,
   `Gen.get_experiment_phase`, `Gen.get_solver_options` are regenerated from the Python source on
   every run; the theorems below are re-checked against whatever the source says now.
+
+  Floating point.  The exact functions over `Int`/`Rat` are what totality, monotonicity, … are stated about.
+  That CPython's floating-point evaluation takes the same branches is PROVED at the end of this file
+  (`identify_search_phase_fl_eq`, `identify_multimetric_phase_fl_eq`, `get_experiment_phase_fl_eq`) for the
+  floating-point reading `Gen.<name>_fl` that the translator derives from the same source (one rounding `fl` after
+  every float operation and every decimal literal; Model/Generated/PhasesFl.lean), under explicit assumptions:
+    * `C14Float.IsRounding fl`: |fl x − x| ≤ 2⁻⁵³·|x| (binary64 round-to-nearest in the normal range – trusted);
+    * size: |budget| + |count| + |open| + |failures| < 10¹⁴;
+    * built into the reading (trusted facts about CPython): int → float is exact below 2⁵³, `int / int` is the
+      correctly rounded quotient of the integers, comparisons are exact;
+    * for `get_experiment_phase` only, `C14Float.SPEDoubles fl`: `2 * 0.15 == 0.3` and `1 - 9/10 <= 0.1` as doubles
+      (checked on the running interpreter by harness/c14.py; `spe_needs_two_mul_limit` and
+      `spe_needs_one_sub_nine_tenths` show that the error bound alone does not decide those two boundary cases).
 -/
 import Model.C14
+import Proofs.C14Float
 import Mathlib.Algebra.Order.Field.Rat
 import Mathlib.Algebra.Order.Floor.Ring
 import Mathlib.Data.Rat.Floor
@@ -392,7 +406,7 @@ theorem filter_spe_overwrites (v : Rat) (xs : List Rat) (m : List Bool) (i : Nat
 /-- An exact progress fraction `a/b` and a documented threshold `p/q` are either equal or at least `1/(b·q)` apart.
     (A correctly rounded float quotient is within relative 2⁻⁵³ of `a/b` and the float literal within 2⁻⁵³ of `p/q`,
     so the float comparison can only differ from the exact one when `b·q` exceeds about 2⁵¹; at equality both
-    sides round to the same float.  The rounding facts themselves are not modelled.) -/
+    sides round to the same float.  The section after this one turns that argument into theorems.) -/
 theorem threshold_gap (a b p q : Int) (hb : 0 < b) (hq : 0 < q) (hne : a * q ≠ p * b) :
     (1 : Rat) / ((b * q : Int) : Rat) ≤ |(a : Rat) / (b : Rat) - (p : Rat) / (q : Rat)| := by
   have hbq : (0 : Rat) < (b : Rat) := by exact_mod_cast hb
@@ -407,7 +421,164 @@ theorem threshold_gap (a b p q : Int) (hb : 0 < b) (hq : 0 < q) (hne : a * q ≠
   have : (1 : Int) ≤ |a * q - p * b| := Int.one_le_abs hz
   exact_mod_cast this
 
+/-! ### Floating point decides the same phase as exact arithmetic
+
+`Gen.<selector>_fl fl …` (Model/Generated/PhasesFl.lean, regenerated from the Python source on every run) is the
+selector as CPython evaluates it: one rounding `fl` after every float operation and every decimal literal, integer
+arithmetic exact.  For EVERY `fl` with the standard relative error bound (`C14Float.IsRounding`, u = 2⁻⁵³) and all
+integer inputs with `|budget| + |count| + |open| + |failures| < 10¹⁴` the floating-point reading returns the same
+phase as the exact function the other theorems of this file are about. -/
+
+open C14Float
+
+/-- size side condition of `ratio_agrees` for thresholds with numerator and denominator ≤ 20 -/
+theorem size_ok (a m : ℤ) (p q : ℕ) (hp : p ≤ 20) (hq : q ≤ 20) (ha : |a| ≤ 10 ^ 14) (hm : |m| ≤ 10 ^ 14 + 1) :
+    |a| * q + p * |m| < 2 ^ 53 := by
+  have hq' : (q : ℤ) ≤ 20 := by exact_mod_cast hq
+  have hp' : (p : ℤ) ≤ 20 := by exact_mod_cast hp
+  have h1 : |a| * q ≤ 10 ^ 14 * 20 := mul_le_mul ha hq' (by positivity) (by norm_num)
+  have h2 : (p : ℤ) * |m| ≤ 20 * (10 ^ 14 + 1) := mul_le_mul hp' hm (abs_nonneg m) (by norm_num)
+  have h3 : (10 : ℤ) ^ 14 * 20 + 20 * (10 ^ 14 + 1) < 2 ^ 53 := by norm_num
+  linarith
+
+/-- the adjusted budget `max (b − f) (max o 1)` is a positive integer of bounded size -/
+theorem adjusted_bounds (b f o : ℤ) (K : ℤ) (h : |b| + |f| + |o| ≤ K) :
+    max (b - f) (max o 1) ≠ 0 ∧ |max (b - f) (max o 1)| ≤ K + 1 := by
+  have hb := abs_le.mp (le_refl |b|)
+  have hf := abs_le.mp (le_refl |f|)
+  have ho := abs_le.mp (le_refl |o|)
+  refine ⟨by omega, abs_le.mpr ⟨by omega, by omega⟩⟩
+
+theorem identify_search_phase_fl_eq (fl : ℝ → ℝ) (h : IsRounding fl) (b n o f : Int)
+    (hsize : |b| + |n| + |o| + |f| < 10 ^ 14) :
+    identify_search_phase_fl fl b n o f = identify_search_phase b n o f := by
+  obtain ⟨hm, hmabs⟩ := adjusted_bounds b f o (10 ^ 14) (by have := abs_nonneg n; omega)
+  have ha : |n + o| ≤ 10 ^ 14 := by
+    have hn := abs_le.mp (le_refl |n|)
+    have ho := abs_le.mp (le_refl |o|)
+    have := abs_nonneg b; have := abs_nonneg f
+    exact abs_le.mpr ⟨by omega, by omega⟩
+  have k1 := ratio_agrees h (n + o) _ 1 5 hm (by norm_num) (size_ok _ _ 1 5 (by norm_num) (by norm_num) ha hmabs)
+  have k2 := ratio_agrees h (n + o) _ 2 5 hm (by norm_num) (size_ok _ _ 2 5 (by norm_num) (by norm_num) ha hmabs)
+  simp only [Nat.cast_ofNat, Nat.cast_one] at k1 k2
+  simp only [identify_search_phase_fl, identify_search_phase, k1.le, k2.le]
+
+theorem identify_multimetric_phase_fl_eq (fl : ℝ → ℝ) (h : IsRounding fl) (thr : Bool) (b n f o : Int)
+    (hsize : |b| + |n| + |f| + |o| < 10 ^ 14) :
+    (identify_multimetric_phase_fl fl thr b n f o).1 = (identify_multimetric_phase thr b n f o).1 := by
+  obtain ⟨hm, hmabs⟩ := adjusted_bounds b f o (10 ^ 14) (by have := abs_nonneg n; omega)
+  have hn := abs_le.mp (le_refl |n|)
+  have ho := abs_le.mp (le_refl |o|)
+  have hb0 := abs_nonneg b
+  have hf0 := abs_nonneg f
+  have ha : |n + o| ≤ 10 ^ 14 := abs_le.mpr ⟨by omega, by omega⟩
+  have hc : |n| ≤ 10 ^ 14 := by omega
+  have s (p q : ℕ) (hp : p ≤ 20) (hq : q ≤ 20) (hq0 : 0 < q) :=
+    ratio_agrees h (n + o) _ p q hm hq0 (size_ok _ _ p q hp hq ha hmabs)
+  have k1 := s 3 20 (by norm_num) (by norm_num) (by norm_num)
+  have k2 := s 3 10 (by norm_num) (by norm_num) (by norm_num)
+  have k3 := s 9 20 (by norm_num) (by norm_num) (by norm_num)
+  have k4 := s 11 20 (by norm_num) (by norm_num) (by norm_num)
+  have k5 := s 13 20 (by norm_num) (by norm_num) (by norm_num)
+  have k6 := s 19 20 (by norm_num) (by norm_num) (by norm_num)
+  have kc := ratio_agrees h n _ 1 10 hm (by norm_num) (size_ok _ _ 1 10 (by norm_num) (by norm_num) hc hmabs)
+  simp only [Nat.cast_ofNat, Nat.cast_one] at k1 k2 k3 k4 k5 k6 kc
+  cases thr <;>
+    simp only [identify_multimetric_phase_fl, identify_multimetric_phase, Bool.false_eq_true, if_false, if_true,
+      k1.le, k2.le, k3.le, k4.le, k5.le, k6.le, kc.le] <;>
+    split_ifs <;> rfl
+
+/-- The Parzen selector.  Besides the error bound it needs the two facts `SPEDoubles` about concrete doubles
+    (`2 * 0.15 == 0.3` and `1 - 0.9 <= 0.1`): its thresholds `2 * 0.15` and the quantity `1 - failures/(1+count)`
+    are themselves computed in floating point, and when the exact fraction sits exactly on the threshold the
+    outcome is decided by how those constants round (see `spe_needs_two_mul_limit`, `spe_needs_one_sub_nine_tenths`).  `b ≠ 0`, `1 + n ≠ 0` are
+    the conditions under which Python does not raise ZeroDivisionError. -/
+theorem get_experiment_phase_fl_eq (fl : ℝ → ℝ) (h : IsRounding fl) (hd : SPEDoubles fl) (b n f : Int)
+    (hb : b ≠ 0) (hn : 1 + n ≠ 0) (hsize : |b| + |n| + |f| < 10 ^ 14) :
+    (get_experiment_phase_fl fl b n f).1 = (get_experiment_phase b n f).1 := by
+  have hn' := abs_le.mp (le_refl |n|)
+  have hf' := abs_le.mp (le_refl |f|)
+  have hb0 := abs_nonneg b
+  have hnf : |n - f| ≤ 10 ^ 14 := abs_le.mpr ⟨by omega, by omega⟩
+  have hn1 : |1 + n| ≤ 10 ^ 14 + 1 := abs_le.mpr ⟨by omega, by omega⟩
+  have hbb : |b| ≤ 10 ^ 14 + 1 := by omega
+  have hnn : |n| ≤ 10 ^ 14 := by omega
+  have k1 := ratio_agrees h (n - f) b 3 20 hb (by norm_num) (size_ok _ _ 3 20 (by norm_num) (by norm_num) hnf hbb)
+  have k2 := ratio_agrees h (n - f) b 3 4 hb (by norm_num) (size_ok _ _ 3 4 (by norm_num) (by norm_num) hnf hbb)
+  have k3 := ratio_agrees h n b 3 10 hb (by norm_num) (size_ok _ _ 3 10 (by norm_num) (by norm_num) hnn hbb)
+  have k4 := one_sub_ratio_gt h hd.one_sub_nine_tenths f (1 + n) hn (by
+    have : |f| ≤ 10 ^ 14 := by omega
+    have h3 : 11 * ((10 : ℤ) ^ 14 + 1) + 30 * 10 ^ 14 < 2 ^ 53 := by norm_num
+    linarith)
+  simp only [Nat.cast_ofNat] at k1 k2 k3
+  have e : (2 : ℚ) * (3 / 20) = 3 / 10 := by norm_num
+  simp only [get_experiment_phase_fl, get_experiment_phase, Int.cast_one, Int.cast_ofNat, hd.two_mul_limit, e,
+    k1.lt, k2.lt, k3.gt, k4]
+
+/-! ### The two facts about doubles are needed
+
+The relative-error bound alone does not decide the Parzen selector: each of the following roundings satisfies
+`IsRounding` (it is exact except at one constant, which it rounds down by one relative unit), and makes the
+floating-point reading differ from the exact selector at small counts.  In binary64 neither happens
+(`2 * 0.15 == 0.3`; `1 - 9/10 = 0.09999999999999998 ≤ 0.1`), which is what `SPEDoubles` records. -/
+
+/-- budget 20, 6 observations, 4 failures: `total_progress = 0.3` sits exactly on the computed threshold `2 * 0.15` -/
+theorem spe_needs_two_mul_limit : ∃ fl : ℝ → ℝ, IsRounding fl ∧
+    (get_experiment_phase_fl fl 20 6 4).1 ≠ (get_experiment_phase 20 6 4).1 := by
+  refine ⟨pert (3 / 20), isRounding_pert _, ?_⟩
+  have hu : unitRoundoff = 1 / 2 ^ 53 := rfl
+  have e1 : pert (3 / 20) ((((6 - 4 : ℤ) : ℤ) : ℝ) / ((20 : ℤ) : ℝ)) = 1 / 10 := by
+    rw [pert_of_ne (by norm_num)]; norm_num
+  have e2 : pert (3 / 20) (((6 : ℤ) : ℝ) / ((20 : ℤ) : ℝ)) = 3 / 10 := by
+    rw [pert_of_ne (by norm_num)]; norm_num
+  have e3 : pert (3 / 20) (((4 : ℤ) : ℝ) / (((1 + 6 : ℤ) : ℤ) : ℝ)) = 4 / 7 := by
+    rw [pert_of_ne (by norm_num)]; norm_num
+  have e4 : pert (3 / 20) (((1 : ℤ) : ℝ) - 4 / 7) = 3 / 7 := by
+    rw [pert_of_ne (by norm_num)]; norm_num
+  have e5 : pert (3 / 20) (((2 : ℤ) : ℝ) * (3 / 20 * (1 - unitRoundoff))) = 3 / 10 * (1 - unitRoundoff) := by
+    rw [pert_of_ne (by rw [hu]; norm_num)]; push_cast; ring
+  have e6 : pert (3 / 20) ((1 : ℝ) / 10) = 1 / 10 := pert_of_ne (by norm_num)
+  have e7 : pert (3 / 20) ((3 : ℝ) / 4) = 3 / 4 := pert_of_ne (by norm_num)
+  have hfl : (get_experiment_phase_fl (pert (3 / 20)) 20 6 4).1 = .SKO_PHASE := by
+    simp only [get_experiment_phase_fl, e1, e2, e3, e4, pert_self, e5, e6, e7]
+    rw [if_neg (by rw [hu]; norm_num), if_pos (by norm_num)]
+  have hex : (get_experiment_phase 20 6 4).1 = .INITIALIZATION_PHASE := by decide +kernel
+  rw [hfl, hex]; decide
+
+/-- budget 20, 9 observations, 9 failures: `1 - 9/10 = 0.1` sits exactly on the success threshold -/
+theorem spe_needs_one_sub_nine_tenths : ∃ fl : ℝ → ℝ, IsRounding fl ∧
+    (get_experiment_phase_fl fl 20 9 9).1 ≠ (get_experiment_phase 20 9 9).1 := by
+  refine ⟨pert (9 / 10), isRounding_pert _, ?_⟩
+  have hu : unitRoundoff = 1 / 2 ^ 53 := rfl
+  have e1 : pert (9 / 10) ((((9 - 9 : ℤ) : ℤ) : ℝ) / ((20 : ℤ) : ℝ)) = 0 := by
+    rw [pert_of_ne (by norm_num)]; norm_num
+  have e2 : pert (9 / 10) (((9 : ℤ) : ℝ) / ((20 : ℤ) : ℝ)) = 9 / 20 := by
+    rw [pert_of_ne (by norm_num)]; norm_num
+  have e3 : pert (9 / 10) (((9 : ℤ) : ℝ) / (((1 + 9 : ℤ) : ℤ) : ℝ)) = 9 / 10 * (1 - unitRoundoff) := by
+    have : ((9 : ℤ) : ℝ) / (((1 + 9 : ℤ) : ℤ) : ℝ) = 9 / 10 := by norm_num
+    rw [this, pert_self]
+  have e4 : pert (9 / 10) (((1 : ℤ) : ℝ) - 9 / 10 * (1 - unitRoundoff)) = 1 / 10 + 9 / 10 * unitRoundoff := by
+    rw [pert_of_ne (by rw [hu]; norm_num)]; push_cast; ring
+  have e5 : pert (9 / 10) ((3 : ℝ) / 20) = 3 / 20 := pert_of_ne (by norm_num)
+  have e6 : pert (9 / 10) (((2 : ℤ) : ℝ) * (3 / 20)) = 3 / 10 := by
+    rw [pert_of_ne (by norm_num)]; norm_num
+  have e7 : pert (9 / 10) ((1 : ℝ) / 10) = 1 / 10 := pert_of_ne (by norm_num)
+  have e8 : pert (9 / 10) ((3 : ℝ) / 4) = 3 / 4 := pert_of_ne (by norm_num)
+  have hfl : (get_experiment_phase_fl (pert (9 / 10)) 20 9 9).1 = .SKO_PHASE := by
+    simp only [get_experiment_phase_fl, e1, e2, e3, e4, e5, e6, e7, e8]
+    rw [if_neg (by rw [hu]; norm_num), if_pos (by norm_num)]
+  have hex : (get_experiment_phase 20 9 9).1 = .INITIALIZATION_PHASE := by decide +kernel
+  rw [hfl, hex]; decide
+
 /-! ### Non-vacuity -/
+
+/-- the hypotheses of the three theorems are satisfiable (exact arithmetic is a rounding) … -/
+example : IsRounding id ∧ SPEDoubles id := ⟨isRounding_id, speDoubles_id⟩
+
+/-- … and the floating-point readings are really functions of `fl` that reach a late phase -/
+example : (get_experiment_phase_fl id 20 16 1).1 = .COMPLETION_PHASE := by
+  rw [get_experiment_phase_fl_eq id isRounding_id speDoubles_id 20 16 1 (by decide) (by decide) (by decide)]
+  decide +kernel
 
 example : (identify_multimetric_phase false 100 40 0 0).1 = .CONVEX_COMBINATION_RANDOM_SPREAD := by decide +kernel
 example : mmStage false (served 100 40 0 0) (completed 100 40 0 0) = 2 := by decide +kernel
